@@ -21,7 +21,7 @@ import Nstd.Codec.Spec
     lcf <d|u|lld|llu> <hex64> <cap>   the libc DEFINITION of snprintf(buf, cap, "%<conv>", v) -> `lcf <stored bytes> <return value>`
     cls <byte>             isSpace + the eight ctype wrappers + toLowerCase/toUpperCase -> `cls <9 flags> <lower> <upper>`
     fd <hex64>             fromDouble of the double with that bit pattern, toDouble of the text -> `fd <text> <fromPrintf("%f"): same|text> <bits> <first try?>`
-    pd <bytes>             toDouble (member, static) of arbitrary text -> `pd <bits> <bits>` (strtodRef below: executable
+    pd <bytes>             toDouble (member, static) of arbitrary text -> `pd <bits> <bits>` (strtodM of Model.lean: executable
                            correctly rounding strtod, tested against libc, no theorem)
   A modelled out-of-range access prints `OOB`.
   Spec lines (answered by this driver only; the check compares them with Python, so that the
@@ -155,66 +155,6 @@ def bitsOfDbl : Dbl → Nat
       else if e + 1075 ≥ 2047 then s + 2047 * 2 ^ 52
       else s + (e + 1075).toNat * 2 ^ 52 + (m - 2 ^ 52)
 
-/-- nearest double (ties to even) of `num / den` (`num, den > 0`) -/
-def roundToDbl (neg : Bool) (num den : Nat) : Dbl :=
-  let e0 : Int := (Nat.log2 num : Int) - (Nat.log2 den : Int) - 53
-  let qd (e : Int) : Nat × Nat := if e ≥ 0 then (num, den * 2 ^ e.toNat) else (num * 2 ^ (-e).toNat, den)
-  let fits (e : Int) : Bool := let p := qd e; p.1 / p.2 < 2 ^ 53
-  let e1 : Int := if fits e0 then e0 else if fits (e0 + 1) then e0 + 1 else e0 + 2
-  let e : Int := if e1 < -1074 then -1074 else e1
-  let p := qd e
-  let m := roundHalfEven p.1 p.2
-  let (m, e) := if m == 2 ^ 53 then (2 ^ 52, e + 1) else (m, e)
-  if e > 971 then .inf neg else .fin neg m e
-
-def lowerAscii (c : Nat) : Nat := if 65 ≤ c ∧ c ≤ 90 then c + 32 else c
-
-def takeDigits : List Nat → List Nat × List Nat
-  | [] => ([], [])
-  | c :: cs => if isDigit c then let r := takeDigits cs; (c :: r.1, r.2) else ([], c :: cs)
-
-def decVal (ds : List Nat) : Nat := ds.foldl (fun a d => a * 10 + (d - 48)) 0
-
-/-- `strtod(s, NULL)` for the decimal form, `inf`/`infinity`, `nan`/`nan(..)`; `none` for the hexadecimal form (not modelled) -/
-def strtodRef (s : List Nat) : Option Dbl :=
-  let r := skipSpace s
-  let (neg, r) := match r with
-    | 45 :: t => (true, t)
-    | 43 :: t => (false, t)
-    | _ => (false, r)
-  let low := r.map lowerAscii
-  let hexStart : Bool := match low.drop 2 with
-    | c :: _ => isDigit c || (97 ≤ c && c ≤ 102) || c == 46
-    | [] => false
-  if low.take 2 == [48, 120] && hexStart then none
-  else if low.take 3 == [105, 110, 102] then some (.inf neg)
-  else if low.take 3 == [110, 97, 110] then some (.nan neg)
-  else
-    let (ip, r1) := takeDigits r
-    let (fp, r2) := match r1 with
-      | 46 :: t => takeDigits t
-      | _ => ([], r1)
-    if ip.isEmpty ∧ fp.isEmpty then some (.fin false 0 0)
-    else
-      let ex : Int := match r2 with
-        | c :: t =>
-          if c == 101 || c == 69 then
-            let (sg, t2) := match t with
-              | 45 :: u => (true, u)
-              | 43 :: u => (false, u)
-              | _ => (false, t)
-            let (eds, _) := takeDigits t2
-            if eds.isEmpty then 0 else (if sg then -((decVal eds : Nat) : Int) else ((decVal eds : Nat) : Int))
-          else 0
-        | [] => 0
-      let d := decVal (ip ++ fp)
-      let p : Int := ex - (fp.length : Int)
-      if d == 0 then some (.fin neg 0 0)
-      else if p > 400 then some (.inf neg)
-      else if p + ((ip ++ fp).length : Int) < -400 then some (.fin neg 0 0)
-      else if p ≥ 0 then some (roundToDbl neg (d * 10 ^ p.toNat) 1)
-      else some (roundToDbl neg d (10 ^ (-p).toNat))
-
 def showDbl (r : Option Dbl) : String :=
   match r with
   | some d => hexN 16 (bitsOfDbl d)
@@ -345,12 +285,12 @@ def stepLine (st : Unit) (ws : List String) : Unit × String :=
       if x.length == 16 then
         let d := dblOfBits v
         let t := fromDouble d
-        s!"fd {asciiStr t} {if fromPrintf (fmtF d) == t then "same" else asciiStr (fromPrintf (fmtF d))} {showDbl (toDouble (fun s => (strtodRef s).getD (.nan false)) t |> some)} {b2s (printfFirstTry printfCap (fmtF d))}"
+        s!"fd {asciiStr t} {if fromPrintf (fmtF d) == t then "same" else asciiStr (fromPrintf (fmtF d))} {showDbl (toDouble (fun s => (strtodM s).getD (.nan false)) t |> some)} {b2s (printfFirstTry printfCap (fmtF d))}"
       else "bad-op"
     | none => "bad-op"
   | ["pd", d] =>
     match Nstd.Common.fromHex d with
-    | some bs => s!"pd {showDbl (strtodRef (cstr bs))} {showDbl (strtodRef (cstr bs))}"
+    | some bs => s!"pd {showDbl (strtodM (cstr bs))} {showDbl (strtodM (cstr bs))}"
     | none => "bad-op"
   | ["spec-utf8", a, n] =>
     match a.toNat?, n.toNat? with
